@@ -1,6 +1,7 @@
 package scn
 
 import (
+	"errors"
 	"encoding/json"
 	"fmt"
 	"net/http"
@@ -58,6 +59,10 @@ func (s *c13store) GetSession(id string) (*ha.SessionState, bool) { return s.inn
 func (s *c13store) GetAllSessions() []ha.SessionState             { return s.inner.GetAllSessions() }
 func (s *c13store) GetSessionCount() int                          { return s.inner.GetSessionCount() }
 func (s *c13store) PutSession(x *ha.SessionState) error {
+	if s.w.sbStore == s && s.w.sbFailPut > 0 {
+		s.w.sbFailPut--
+		return s.w.storeFailed("put", x.SessionID)
+	}
 	if s.w.sbStore == s {
 		s.w.applied = append(s.w.applied, c13applied{c13mut{"put", x.SessionID, x.BytesIn}, s.w.curStream})
 		s.w.c.S.Logf("standby put %s v%d (conn %d)", x.SessionID, x.BytesIn, s.w.curStream)
@@ -65,6 +70,10 @@ func (s *c13store) PutSession(x *ha.SessionState) error {
 	return s.inner.PutSession(x)
 }
 func (s *c13store) DeleteSession(id string) error {
+	if s.w.sbStore == s && s.w.sbFailDel > 0 {
+		s.w.sbFailDel--
+		return s.w.storeFailed("delete", id)
+	}
 	if s.w.sbStore == s {
 		s.w.applied = append(s.w.applied, c13applied{c13mut{"del", id, 0}, s.w.curStream})
 		s.w.c.S.Logf("standby del %s (conn %d)", id, s.w.curStream)
@@ -72,7 +81,26 @@ func (s *c13store) DeleteSession(id string) error {
 	return s.inner.DeleteSession(id)
 }
 
+// storeFailed: an injected failure of the standby's own session store (no
+// effect on the store). The stream being read at that moment can no longer be
+// held to "every pushed change is applied"; a failure during a full sync excuses
+// that one snapshot comparison. Later full syncs and the final convergence are
+// judged as usual.
+func (w *c13world) storeFailed(kind, id string) error {
+	w.c.S.Fault("store.err." + kind)
+	w.c.S.Logf("standby store %s %s fails (conn %d)", kind, id, w.curStream)
+	if w.curStream >= 0 {
+		w.taint[w.curStream] = true
+	} else {
+		w.syncTainted = true
+	}
+	return errors.New("c13: injected store failure")
+}
+
 type c13world struct {
+	sbFailPut, sbFailDel int          // standby store operations still to fail
+	taint                map[int]bool // streams during which a standby store operation failed
+	syncTainted          bool         // a standby store operation failed outside a stream (during a full sync)
 	streams map[int]*vhConn // stream connections by id (for the in-order rule)
 	c   *sim.Ctx
 	net *vhNet
@@ -129,7 +157,10 @@ func c13Gen(r *sim.Rand, tier string) *sim.Case {
 		cs.Ops = append(cs.Ops, sim.Op{K: "sleep", A: []int64{1}}) // let the first sync + attach complete
 	}
 	for i := 0; i < n; i++ {
-		w := []int{10, 8, 6, 8, 0, 0, 0, 0, 0, 0, 0}
+		w := []int{10, 8, 6, 8, 0, 0, 0, 0, 0, 0, 0, 0}
+		if cs.Variant != "calm" && cs.Variant != "crash" {
+			w[11] = 2
+		}
 		switch cs.Variant {
 		case "cuts":
 			w[4], w[5], w[10] = 4, 3, 3
@@ -166,6 +197,10 @@ func c13Gen(r *sim.Rand, tier string) *sim.Case {
 				sim.Op{K: "sleep", A: []int64{int64(r.Weighted(2, 3, 3, 2, 2, 1))}}, sim.Op{K: "heal"})
 		case 9:
 			cs.Ops = append(cs.Ops, sim.Op{K: "crash", A: []int64{int64(r.N(3))}})
+		case 11:
+			// the standby's own store refuses one delete (or put), then the link drops: the next full sync has to repair it
+			cs.Ops = append(cs.Ops, sim.Op{K: "sberr", A: []int64{int64(r.Weighted(3, 1))}}, sim.Op{K: sim.Pick(r, "del", "del", "upd"), A: []int64{id}},
+				sim.Op{K: "sleep", A: []int64{int64(sim.Pick(r, 0, 1, 2))}}, sim.Op{K: "cut"})
 		case 10:
 			// half-open stream: the standby sees the break, the active's handler does not until
 			// it next writes; the standby reconnects meanwhile, then more changes are pushed
@@ -268,6 +303,11 @@ func (w *c13world) checkSnapshot() {
 	}
 	w.syncs++
 	c.OpsDone++
+	if w.syncTainted {
+		w.syncTainted = false
+		c.S.Probe("snapshot_check_skipped_store_failure")
+		return
+	}
 	snap := c13Table(msg.Sessions)
 	table := c13Table(w.sbStore.GetAllSessions())
 	c.S.Logf("full sync completed: snapshot %s standby %s", c13Show(snap), c13Show(table))
@@ -294,6 +334,10 @@ func (w *c13world) checkStream(id int, final bool) {
 		return
 	}
 	w.checked[id] = true
+	if w.taint[id] {
+		c.S.Probe("stream_check_skipped_store_failure")
+		return
+	}
 	var A []c13mut
 	for _, a := range w.applied {
 		if a.conn == id {
@@ -408,7 +452,7 @@ func (w *c13world) checkStream(id int, final bool) {
 
 func c13Run(c *sim.Ctx) {
 	cs := c.Case
-	w := &c13world{c: c, checked: map[int]bool{}, curStream: -1, streams: map[int]*vhConn{}}
+	w := &c13world{c: c, checked: map[int]bool{}, curStream: -1, streams: map[int]*vhConn{}, taint: map[int]bool{}}
 	n := newVHNet(c)
 	w.net = n
 	n.BaseLat = time.Duration(cs.Knob("lat_us", 300)) * time.Microsecond
@@ -549,6 +593,12 @@ func c13Run(c *sim.Ctx) {
 			c.S.Sleep(sleeps[int(op.Arg(len(op.A)-1))%len(sleeps)])
 		case "cut":
 			n.CutStream(c13Standby, c13Active)
+		case "sberr":
+			if op.Arg(0) == 1 {
+				w.sbFailPut++
+			} else {
+				w.sbFailDel++
+			}
 		case "cuthalfopen":
 			if w.curConn != nil {
 				w.curConn.lazySrv = true
@@ -588,6 +638,7 @@ func c13Run(c *sim.Ctx) {
 	// ---- faults stop, the link is up, the active is quiet ---------------------
 	c.OpIdx = len(cs.Ops)
 	n.Quiet = true
+	w.sbFailPut, w.sbFailDel = 0, 0
 	for k := range n.LoseNext {
 		delete(n.LoseNext, k)
 	}
